@@ -128,6 +128,7 @@ class Prop:
             print(line, flush=True)
 
     def violation(self, name, payload, no_input=False):
+        E.TRIAGE['violations'] += 1
         rp = self.replay_path(name)
         payload = dict(payload)
         payload.setdefault('property', self.pid)
